@@ -59,6 +59,14 @@ def conversion_classes(repo):
             if p[0] == "MassUnits":
                 return Obj(d, {"factor": mass[p[1]]})
             return Obj(d, {})
+        if "." not in d:
+            # a module-level table of util.py (a literal display keyed by enum members), evaluated with the same resolver
+            try:
+                v = repo.module_assign(UTIL, d)
+            except AnchorError:
+                v = None
+            if isinstance(v, (ast.Dict, ast.List, ast.Tuple, ast.Set, ast.Constant, ast.BinOp)):
+                return Evaluator({}, class_attr, hook).ev(v)
         raise Unknown(d)
 
     def hook(name, n, ev):
